@@ -6,7 +6,7 @@ DECIDES = ('in SplineGeometry.__eq__ every defining component (parametric dimens
            'vectors, homogeneous control points) is compared between self and other and every such comparison result '
            'can reach `return False` (EQ1/KD3); tolerance bounds are magnitudes, not digit counts (KD2); every '
            'comparison incl. its tolerance is symmetric under exchanging the operands (EQ3); __ne__ negates __eq__ (EQ4); '
-           'no subclass overrides __eq__/__ne__ (EQ5).')
+           'no subclass overrides __eq__/__ne__ (EQ5); __deepcopy__ copies every attribute through copy.deepcopy and pre-seeds the memo only for self and the cache, so a copy carries the compared components of its source (IV4).')
 NOT_DECIDED = 'nothing numerical is involved; transitivity is not an equivalence property of a tolerance comparison and is not claimed.'
 
 COMPONENTS = {
@@ -353,6 +353,10 @@ def check(m, run):
                        'subclass overrides %s: the component-wise comparison of SplineGeometry no longer decides equality for it' % nm)
     run.ob('EQ5.no-override', 'subclasses of abstract.SplineGeometry', True,
            '%d subclasses scanned' % (len(m.subclasses(ci.key)) - 1))
+    # a deep copy always equals its source: every attribute is copied through copy.deepcopy(v, memo) and the memo is pre-seeded
+    # only for the object itself and its cache (shared with C12)
+    from .. import rules_state
+    rules_state.iv4_deepcopy(m, run)
     run.floor('EQ1.compared', 6, 'six components named by the property')
     run.floor('EQ3.symmetry', 4, 'pinned tree has 6 self/other comparisons')
     run.floor('KD2.tolerance-kind', 1, 'knot vectors and control points are compared with a tolerance')
